@@ -241,10 +241,11 @@ class C06(Monitor):
         # J: programs whose jumps need EXTENDED_ARG (re-encoding normalized data has
         # to grow them in the fix-point loop)
         jumps = [c for c in S.feat_cases(self.tier) if c["k"] == "jump" and c["n"] <= 200]
+        q = list(S.prog_Q())
         if self.tier == "quick":
             out = list(S.with_modes(S.prog_Pa()))
-            return out[::5] + jumps
-        return list(S.with_modes(S.prog_Pa())) + list(S.with_modes(S.prog_Pb()))[::3] + jumps
+            return out[::5] + jumps + q
+        return list(S.with_modes(S.prog_Pa())) + list(S.with_modes(S.prog_Pb()))[::3] + jumps + q
 
     def cases(self):
         for c in self.programs():
@@ -504,8 +505,7 @@ class C12(Monitor):
     def programs(self):
         out = list(spaces.with_modes(spaces.prog_Pa()))
         n = 600 if self.tier == "quick" else 2400
-        step = max(1, len(out) // n)
-        return out[::step][:n]
+        return spaces.spread(out, n) + list(spaces.prog_Q())
 
     def cases(self):
         for c in self.programs():
@@ -535,6 +535,31 @@ class C12(Monitor):
             code = code.co_consts[i]
         self.histories(case, code, stats, only=case.get("history"))
 
+    def finish(self, stats):
+        """End-of-shard recheck: every argument seen by this process (and its twin: an
+        equal code object under code.__eq__ with another file name and name-independent
+        fields) is passed to the API once more, after everything else this process did;
+        the results must equal the first ones (bounded caches that evict, caches keyed
+        too coarsely, leftover module state)."""
+        for case, code, twin, first in getattr(self, "recheck", []):
+            for label, obj in (("c", code), ("twin", twin)):
+                try:
+                    with horizon(H):
+                        d = CodeData.from_code(obj)
+                        got = (skey(d, True), skey(d.normalize(), True), jkey(d.to_json_data()))
+                except Exception as e:
+                    got = ("raises", type(e).__name__)
+                stats.transitions += 3
+                if got != first[label]:
+                    stats.violation(
+                        dict(case, recheck=label),
+                        "not-repeatable-later",
+                        "from_code/normalize/to_json_data of the same %s give another result at the end of the process than at first (%d arguments were processed in between)" % ("code object" if label == "c" else "twin code object (same code, other file name)", len(self.recheck)),
+                    )
+                    return
+        if getattr(self, "recheck", None):
+            stats.outcomes["recheck-ok"] += 1
+
     def fresh_store(self, code):
         d = CodeData.from_code(code)
         n = d.normalize()
@@ -552,6 +577,22 @@ class C12(Monitor):
         if st0["d"].type is not None:
             stats.reach["function-document"] += 1
         base = snapshot(st0)
+        if only is None:
+            # first results for the end-of-shard recheck, for the object and its twin
+            twin = ref.code_replace(code, co_filename="<verif-twin>")
+            first = {}
+            for label, obj in (("c", code), ("twin", twin)):
+                try:
+                    d = CodeData.from_code(obj)
+                    first[label] = (skey(d, True), skey(d.normalize(), True), jkey(d.to_json_data()))
+                    if label == "twin" and d.filename != "<verif-twin>":
+                        stats.violation(case, "twin-decoded-as-original", "from_code of an equal code object with another file name returns the first one's data (filename %r)" % d.filename)
+                        return
+                except Exception as e:
+                    first[label] = ("raises", type(e).__name__)
+            if not hasattr(self, "recheck"):
+                self.recheck = []
+            self.recheck.append((case, code, twin, first))
         # reference results from a store nobody else touches
         ref_results = {}
         for name in CALLS:
